@@ -145,7 +145,8 @@ def run_case(ctx, case):
     for d in case["worktable"]:
         if d["kind"] == "trough":
             ctx.feature("trough_virtual_rows", d["virtual_rows"])
-    ctx.case({k: case[k] for k in ("worklist", "worktable", "n_ops", "opseed")}, mon.nontrivial)
+    c2 = {k: case[k] for k in ("worklist", "worktable", "n_ops", "opseed")}
+    ctx.case(c2, mon.nontrivial, sample=dict(c2, executed_operations_tail=eng.tail(4)))
 
 
 def gates(stats, tier):
